@@ -332,7 +332,35 @@ func embeddedPtrEdge(v reflect.Value) bool {
 	return false
 }
 
-func runUnmarshalCases(g *Gen, rounds int, cs *CaseSet, f *failer, evals *int, outcomes map[string]int, samples *[]interface{}) {
+// struct shapes outside the round-trip domain (rt_extra in Proofs/UnmarshalProofs.v; each has a machine-checked
+// _refuted witness): an embedded MAP type is flattened by Normalize but is a named field for encoding/json; an
+// omitempty pointer to a nil pointer is stored as nil and then comes back as a nil outer pointer, which is omitted
+type UMapT map[string]int
+type UEmbMap struct{ UMapT }
+type UOmitPP struct {
+	P **int `clover:"p,omitempty"`
+}
+
+func unmarshalKnownShapes(known map[string]bool) {
+	rt := func(p interface{}, q interface{}) (string, string) {
+		doc := d.NewDocumentOf(p)
+		before := Tstr(tValue(doc.AsMap()))
+		if err := doc.Unmarshal(q); err != nil {
+			return before, "error " + err.Error()
+		}
+		return before, Tstr(normObs(reflect.ValueOf(q).Elem().Interface()))
+	}
+	if b, a := rt(UEmbMap{UMapT{"x": 1}}, &UEmbMap{}); !strings.Contains(a, b) {
+		known["K-unmarshal-shapes: struct{ M } with an embedded map type M does not survive NewDocumentOf + Unmarshal (Normalize flattens the map into the parent, encoding/json expects it under its name)"] = true
+	}
+	var np *int
+	if b, a := rt(UOmitPP{&np}, &UOmitPP{}); !strings.Contains(a, b) {
+		known["K-unmarshal-shapes: an omitempty field of type **T pointing at a nil pointer is stored as nil and comes back as a nil pointer that is then omitted"] = true
+	}
+}
+
+func runUnmarshalCases(g *Gen, rounds int, cs *CaseSet, f *failer, evals *int, outcomes map[string]int, samples *[]interface{}, known map[string]bool) {
+	unmarshalKnownShapes(known)
 	for i := 0; i < rounds; i++ {
 		for ti, t := range unmTypes {
 			rt := true
